@@ -1,14 +1,17 @@
 #!/bin/bash
-# usage: ./seedtest.sh <seed-dir-name> [tier]  - applies /verif/seeded/<name>/patch.diff to /repo, runs the check of the
-# property named in meta.json, and restores /repo. Prints DETECTED / MISSED.
+# usage: ./seedtest.sh <seed-dir-name> [tier]
+# Applies /verif/seeded/<name>/patch.diff to a scratch worktree of /repo (never to /repo itself), runs the check of
+# the property named in meta.json against that worktree, removes the worktree. Prints DETECTED / MISSED.
 set -u
 cd "$(dirname "$0")"
 name="$1"; tier="${2:-quick}"
-dir="seeded/$name"
+dir="$PWD/seeded/$name"
 prop=$(python3 -c "import json;print(json.load(open('$dir/meta.json'))['property'])" 2>/dev/null | tail -1)
-if ! git -C /repo diff --quiet; then echo "refusing: /repo has uncommitted changes"; exit 3; fi
-git -C /repo apply "$PWD/$dir/patch.diff" || { echo "patch does not apply"; exit 3; }
-out=$(./check "$prop" --tier "$tier" 2>&1); rc=$?
-git -C /repo checkout -- . 
-echo "$out" | grep -E "VIOLATION|KNOWN-FINDING|INCONCLUSIVE|^OK" | cut -c1-300 | head -12
+wt="/tmp/seedrun_$name"
+git -C /repo worktree remove --force "$wt" >/dev/null 2>&1
+git -C /repo worktree add -q --detach "$wt" HEAD || exit 3
+( cd "$wt" && git apply "$dir/patch.diff" ) || { echo "patch does not apply"; git -C /repo worktree remove --force "$wt"; exit 3; }
+out=$(VERIF_REPO="$wt" VERIF_EVIDENCE_DIR="/tmp/seedrun_evidence" ./check "$prop" --tier "$tier" 2>&1); rc=$?
+git -C /repo worktree remove --force "$wt"
+echo "$out" | grep -E "VIOLATION|KNOWN-FINDING|INCONCLUSIVE|^OK|msg=" | cut -c1-260 | head -10
 if [ $rc -eq 1 ]; then echo "RESULT $name property=$prop tier=$tier: DETECTED"; elif [ $rc -eq 0 ]; then echo "RESULT $name property=$prop tier=$tier: MISSED"; else echo "RESULT $name property=$prop tier=$tier: INCONCLUSIVE(rc=$rc)"; fi
